@@ -540,13 +540,21 @@ def ref_read(node, model, noop):
 
 def c04_gen(rng):
     t = gen.gen_tree(rng, wf=maybe(rng, 0.5), weird=0.2)
+    if maybe(rng, 0.12):
+        # nested empty nodes "()" (a node without variable) and relations without target, together
+        var, bs = t
+        bs = list(bs)
+        for _ in range(rng.randint(1, 2)):
+            bs.insert(rng.randrange(len(bs) + 1) if not bs or bs[0][0] != '/' else rng.randrange(1, len(bs) + 1),
+                      (gen.role(rng), rng.choice([(None, []), (None, []), None])))
+        t = (var, bs)
     return {'tree': j_node(t), 'model': gen.gen_model(rng)}
 
 
 def c04_check(case):
     node = py_node(case['tree'])
-    if any(n[0] is None for n in all_nodes(node)):
-        return None
+    if node[0] is None:
+        return None         # the empty graph "()" has no top to read
     if not valid_tree(node):
         return None
     spec = case['model']
@@ -568,7 +576,8 @@ def c04_check(case):
             gp = decode_pub(text, m)
         except Exception as e:  # noqa: BLE001
             return f'public decode raised {type(e).__name__}: {e} on {text!r}'
-        if j_graph(gp) != j_graph(g):
+        if (gp.top, gp.triples, {k: [repr(e) for e in v] for k, v in gp.epidata.items()}) != \
+                (g.top, g.triples, {k: [repr(e) for e in v] for k, v in g.epidata.items()}):
             return f'a public decode entry point reads {text!r} differently from interpret(parse(text), model)'
     if g.top != top:
         return f'top {g.top!r} != {top!r}'
@@ -703,6 +712,15 @@ def c05_check(case):
             if [(r, t[0] if isinstance(t, tuple) else t) for r, t in want] != \
                     [(r, t[0] if isinstance(t, tuple) else t) for r, t in rest_new]:
                 return f'not the stable sort at node {n_new[0]}'
+    # reconfigure only returns a tree: its graph argument is left as it was
+    before_g = snap(g0)
+    try:
+        layout.reconfigure(g0, model=m, key=m.canonical_order)
+        layout.reconfigure(g0, model=m, key=m.alphanumeric_order)
+    except Exception:  # noqa: BLE001
+        pass
+    if snap(g0) != before_g:
+        return 'reconfigure changed its graph argument'
     # reconfigure / new top
     for key in ([case['key']] if not case.get('random') else [None]):
         try:
@@ -1101,8 +1119,6 @@ def c09_check(case):
     except Exception as e:  # noqa: BLE001
         return f'encode raised {type(e).__name__}: {e}'
     s = case['sep'].join(texts)
-    if case['sep'] == ' ' and any(g.metadata for g in gs[1:]):
-        return None     # a comment cannot follow a graph on the same line
     s = s.replace('\n', case['nl'])
     try:
         base = [graph_obs(g) for g in penman.loads(s)]
@@ -1493,20 +1509,23 @@ def c13_check(case):
         return f'invert_role not an involution on canonical {ci!r}'
     if m.is_role_inverted(m.invert_role(ci)) == m.is_role_inverted(ci):
         return f'inverting {ci!r} does not flip inverted-ness'
-    tr = ('a', ci, 'b')
-    inv = m.invert(tr)
-    if (inv[0], inv[2]) != ('b', 'a'):
-        return 'invert does not swap'
     noop = case['model'] == 'noop' or (isinstance(case['model'], dict) and case['model'].get('noop'))
-    d = m.deinvert(tr)
-    if noop:
-        if d != tr:
-            return 'noop deinvert is not the identity'
-    elif m.is_role_inverted(ci):
-        if d != inv:
-            return 'deinvert of an inverted triple is not invert'
-    elif d != tr:
-        return 'deinvert changed a non-inverted triple'
+    # for every kind of target a triple can hold (variables, constants, numbers incl. 0, the empty
+    # string, a missing target)
+    for tgt in ('b', 'x y', '', None, 0, 0.0, 7, -1.5):
+        tr = ('a', ci, tgt)
+        inv = m.invert(tr)
+        if (inv[0], inv[2]) != (tgt, 'a') or type(inv[0]) is not type(tgt):
+            return f'invert does not swap source and target of {tr!r}: {inv!r}'
+        d = m.deinvert(tr)
+        if noop:
+            if d != tr:
+                return 'noop deinvert is not the identity'
+        elif m.is_role_inverted(ci):
+            if d != inv or type(d[0]) is not type(tgt):
+                return f'deinvert of the inverted triple {tr!r} is {d!r}, not its inversion {inv!r}'
+        elif d != tr:
+            return 'deinvert changed a non-inverted triple'
     # tree clause
     node = py_node(case['tree'])
     t1 = transform.canonicalize_roles(Tree(node), m)
